@@ -48,7 +48,7 @@ def run():
     ck.cov['rule'] = ('reduced instances (m in 8/16/32 blocks, t in 1..3, key lengths 0,1,12,63..65,128,300) x {ref, SSSE3, AVX2} recomputed completely; full 256 MiB instance: first / last / random block of sampled (pass, slice) segments '
                       'with their prev/ref/old inputs; reference vs SSSE3 vs AVX2 over all 262144 blocks; randomx_init_cache (each Argon2 flag, after re-keying from another key) vs manual reference fill')
     ck.sample({k: (v if len(str(v)) < 120 else str(v)[:120]) for k, v in json.loads(lines[0]).items()})
-    ck.sample([l for l in lines if l.startswith('{"e":"same"')][0])
+    ck.sample(([l for l in lines if l.startswith('{"e":"same"')] or [''])[0])
     ck.assumptions += ['the 256 MiB memory is checked locally at sampled blocks and by cross-implementation equality, not recomputed entirely by TLC (about 0.15 s per block)']
     if not res['rejected']:
         shutil.rmtree(wd, ignore_errors=True)
